@@ -1,5 +1,5 @@
 import ElvisVerif.Lemmas.ModCmpGen
-import ElvisVerif.Lemmas.ShiftRun
+import ElvisVerif.Lemmas.ShiftInv
 /-!
 # C12 — TCP behaviour is independent of absolute sequence numbers (mod 2^32)
 
@@ -389,18 +389,51 @@ theorem c12_wl2_counterexample :
     loss, duplication, reordering —, forged segments, closes, aborts) from ISNs `(a, b)` and the
     same run from `(a + ka, b + kb)` pass through shifted states and produce shifted results,
     op by op: the same flags, lengths, payloads, windows, the same data delivered, the same
-    state changes, SEQ/ACK fields moved by exactly `ka` / `kb`.  `_partial`: `RunAdm` demands of
-    every op what `c12_step_shift_partial` demands (F-C12-2, the CLOSED reset, segments delivered
-    to the side they are addressed to). -/
-theorem c12_run_shift_partial (ka kb : Seq) (ops : List Op) (h : RunAdm {} ops) :
+    state changes, SEQ/ACK fields moved by exactly `ka` / `kb` — for all `ka kb`, i.e. for all
+    ISN pairs, wrap-around included.
+
+    `_partial` because of `RunExcl`, which demands of the ORIGINAL run only the genuine exclusions:
+    * F-C12-2: no `close()` in SYN-RECEIVED and no FIN (arriving or parked) processed while the
+      TCB is in SYN-SENT / SYN-RECEIVED;
+    * the RFC-mandated `SEQ = 0` reset: a segment that meets neither a TCB nor a LISTEN binding
+      carries RST or ACK;
+    * plumbing: a delivered / forged segment is addressed to the side it is handed to
+      (`srcPort` = the peer's port, `dstPort` = the side's port; `Tcp::demux` guarantees it).
+    Everything else the step theorem needs (fresh SYN-SENT TCBs, empty reorder heap in SYN-SENT,
+    emitted segments carry the emitter's port) is proved to be an invariant of runs from the
+    initial system (`SysInv`, `sysInv_step`, `runAdm_of_excl`). -/
+theorem c12_run_shift_partial (ka kb : Seq) (ops : List Op) (h : RunExcl {} ops) :
     Sys.run {} (ops.map (Op.shift ka kb)) = shiftRun ka kb ops (Sys.run {} ops) := by
-  have := Sys.shift_run ka kb {} ops h
+  have := Sys.shift_run ka kb {} ops (runAdm_of_excl {} ops sysInv_init h)
   rw [Sys.shift_init] at this
   exact this
 
-/-- one step of the system, for the record (the induction step of the run theorem) -/
-theorem c12_sys_step_shift_partial (ka kb : Seq) (s : Sys) (op : Op) (h : Adm s op) :
+/-- handshake, 20 bytes from A to B, acknowledgment; A's sequence space wraps inside the data
+    segment (ISS = 2^32 − 6), B's crosses 2^31 -/
+def demoOps : List Op :=
+  [ .open .A 4294967290#32 1500#16, .listen .B 2147483647#32 1500#16,
+    .emit .A, .deliver .B 0, .emit .B, .deliver .A 1, .emit .A, .deliver .B 2,
+    .write .A [1, 2, 3, 4, 5, 6, 7, 8, 9, 10, 11, 12, 13, 14, 15, 16, 17, 18, 19, 20],
+    .emit .A, .deliver .B 3, .read .B, .emit .B, .deliver .A 4 ]
+
+example : RunExcl {} demoOps := runExcl_of_B {} demoOps (by decide)
+
+
+/-- … and the run is not trivial: the 20 bytes arrive, both sides end ESTABLISHED -/
+example : (match Sys.run {} demoOps with
+    | .ok (s, _) => (s.b.delivered.length, s.a.tcb.map (·.state), s.b.tcb.map (·.state))
+    | .error _ => (0, none, none)) = (20, some .Established, some .Established) := by decide
+
+/-- the invariant behind it: along every run from the initial system whose ops meet the
+    exclusions, every TCB is fresh while in SYN-SENT, has an empty reorder heap there, and emits
+    only headers that carry its side's port -/
+theorem c12_run_invariant (s s' : Sys) (op : Op) (r : Res) (hi : SysInv s) (he : Excl s op)
+    (h : s.step op = .ok (s', r)) : SysInv s' :=
+  sysInv_step s s' op r hi (adm_of_excl s op hi he) h
+
+/-- one step of the system (the induction step of the run theorem), under the invariant -/
+theorem c12_sys_step_shift_partial (ka kb : Seq) (s : Sys) (op : Op) (hi : SysInv s) (he : Excl s op) :
     (s.shift ka kb).step (op.shift ka kb) = shiftSR op.side ka kb (s.step op) :=
-  Sys.shift_step ka kb s op h
+  Sys.shift_step ka kb s op (adm_of_excl s op hi he)
 
 end Elvis.Tcp
